@@ -420,6 +420,7 @@ class Gen:
     def __init__(self, rng):
         self.rng = rng
         self.nid = 0
+        self.sof_inline = False      # asn1c names every inline SEQUENCE OF element type "Member" (exit 70 on two)
 
     def idents(self, k):
         # module-wide unique: asn1c names the C type of an inline SEQUENCE/SET/CHOICE/ENUMERATED after
@@ -485,8 +486,18 @@ class Gen:
         if k == 'enum':
             return self.enum(tag)
         if k == 'sof':
-            return ('sof', tag, self.ty(idx, plan, depth + 1, ptag * 0.5, True))
+            return ('sof', tag, self.elem(idx, plan, depth, ptag))
         return self.constr(idx, plan, depth, ptag, tag, k)
+
+    def elem(self, idx, plan, depth, ptag):
+        for _ in range(20):
+            e = self.ty(idx, plan, depth + 1, ptag * 0.5, True)
+            if e[0] in ('prim', 'ref'):
+                return e
+            if not self.sof_inline and e[0] != 'sof' and not any(n[0] == 'sof' for _, n in walk(e)):
+                self.sof_inline = True
+                return e
+        return ('prim', None, 'int')
 
     def constr(self, idx, plan, depth, ptag, tag, k):
         r = self.rng
@@ -525,7 +536,7 @@ class Gen:
             elif p == 'alias':
                 t = ('ref', toptag, 'T%d' % r.randrange(i)) if i else ('prim', toptag, 'int')
             elif p == 'sof':
-                t = ('sof', toptag, self.ty(i, plan, 1, ptag, True))
+                t = ('sof', toptag, self.elem(i, plan, 0, ptag))
             else:
                 t = self.constr(i, plan, 0, ptag, toptag, p)
             types.append(('T%d' % i, t))
@@ -621,33 +632,46 @@ def inject_faults(rng, M, limit):
                 return o if (o != 'd' or t[2] in ('bool', 'int')) else 'o'
             variants.append(('same-builtin', lambda nd, p=p: put(put(nd, x, (cx[0], ('prim', None, p), opt_ok(cx[2], ('prim', None, p)))),
                                                                  y, (cy[0], ('prim', None, p), opt_ok(cy[2], ('prim', None, p)))), []))
-            # (c) y becomes an untagged CHOICE (inline) one of whose alternatives has x's tag
-            def via_choice(nd, inline=True):
-                tx = with_tag(cx[1], None) if cx[1][0] != 'constr' or cx[1][2] != 'cho' else ('prim', None, 'int')
-                gx = cx[1][1]
-                if gx is None and cx[1][0] in ('ref',):
-                    # copy the reference itself: same outer tags whatever it refers to
-                    alt = cx[1]
-                elif gx is None:
-                    alt = tx if tx[0] == 'prim' else ('prim', None, 'null')
-                    nd = put(nd, x, (cx[0], alt, opt_ok(cx[2], alt) if alt[0] == 'prim' else cx[2]))
+            # (c) dst becomes an untagged CHOICE (inline) one of whose alternatives has src's tag
+            def via_choice(nd, src, dst):
+                cs, cd = get(nd, src), get(nd, dst)
+                gs = cs[1][1]
+                if gs is None and cs[1][0] == 'ref':
+                    alt = cs[1]                       # the same reference: same outer tags
+                elif gs is None:
+                    alt = cs[1] if cs[1][0] == 'prim' else ('prim', None, 'null')
+                    nd = put(nd, src, (cs[0], alt, opt_ok(cs[2], alt)))
                 else:
-                    alt = ('prim', (gx[0], gx[1], 'd'), 'null')
+                    alt = ('prim', (gs[0], gs[1], 'd'), 'null')
                 cho = ('constr', None, 'cho', [('pz', ('prim', ('P', 1000, 'd'), 'bool'), 'm'), ('qz', alt, 'm')], False, [])
-                oy = 'o' if cy[2] == 'd' else cy[2]
-                return nd, cho, oy
-            def v_inline(nd):
-                nd, cho, oy = via_choice(nd)
-                return put(nd, y, (cy[0], cho, oy))
+                od = 'o' if cd[2] == 'd' else cd[2]
+                return nd, cho, od
+            def untagged_ref(c):
+                return c[1][0] == 'ref' and c[1][1] is None
+            def v_inline(nd, src=x, dst=y):
+                nd, cho, od = via_choice(nd, src, dst)
+                return put(nd, dst, (get(nd, dst)[0], cho, od))
             variants.append(('via-inline-choice', v_inline, []))
-            # (d) … through a reference chain X1 -> X2 -> CHOICE
-            def v_ref(nd):
-                nd, cho, oy = via_choice(nd)
-                return put(nd, y, (cy[0], ('ref', None, fresh[0]), oy))
-            def v_ref_extra(nd):
-                _, cho, _ = via_choice(nd)
-                return [(fresh[0], ('ref', None, fresh[1])), (fresh[1], cho)]
-            variants.append(('via-ref-chain', v_ref, v_ref_extra))
+            if rng.random() < 0.3:
+                variants.append(('via-inline-choice', lambda nd: v_inline(nd, y, x), []))
+            # (d) … through a reference chain X1 -> X2 -> CHOICE.  An untagged type reference
+            # *followed* by a reference to an untagged CHOICE is the region of the known
+            # TM_RECURSION finding (witness typeref-then-choice-ref-missed): choose the roles so
+            # that the generated mutant stays outside it
+            if not untagged_ref(cx):
+                src, dst = x, y
+            elif not untagged_ref(cy):
+                src, dst = y, x
+            else:
+                src = dst = None
+            if src is not None:
+                def v_ref(nd, src=src, dst=dst):
+                    nd, cho, od = via_choice(nd, src, dst)
+                    return put(nd, dst, (get(nd, dst)[0], ('ref', None, fresh[0]), od))
+                def v_ref_extra(nd, src=src, dst=dst):
+                    _, cho, _ = via_choice(nd, src, dst)
+                    return [(fresh[0], ('ref', None, fresh[1])), (fresh[1], cho)]
+                variants.append(('via-ref-chain', v_ref, v_ref_extra))
             for kind, fn, extra in variants:
                 try:
                     M2 = mod_replace(M, ti, path, fn)
@@ -784,8 +808,22 @@ WITNESSES = [
      ('E', [('T0', ('constr', None, 'cho', [('a', ('ref', None, 'T0'), 'm'), ('b', P('int'), 'm')], False, []))]), 'reject'),
 ]
 
+WITNESSES.append(
+    ('typeref-then-choice-ref-missed',
+     'T1 ::= CHOICE { x T0, y T2 } with T0 ::= INTEGER, T2 ::= CHOICE { p INTEGER, q NULL }: x and y.p are both '
+     'INTEGER.  _asn1f_compare_tags(x, y) marks x and y with TM_RECURSION before descending into T2, and '
+     'asn1f_fetch_tags_impl refuses to follow the marked reference x, so every comparison answers 0: accepted',
+     ('E', [('T0', P('int')),
+            ('T1', ('constr', None, 'cho', [('x', ('ref', None, 'T0'), 'm'), ('y', ('ref', None, 'T2'), 'm')], False, [])),
+            ('T2', ('constr', None, 'cho', [('p', P('int'), 'm'), ('q', P('null'), 'm')], False, []))]), 'reject'))
+
 # deviations from the standard that do not contradict the property text (documented, K only)
 QUIRKS = [
+    # the same pair in the other order is diagnosed
+    ('choice-ref-then-typeref-found',
+     ('E', [('T0', P('int')),
+            ('T1', ('constr', None, 'cho', [('y', ('ref', None, 'T2'), 'm'), ('x', ('ref', None, 'T0'), 'm')], False, [])),
+            ('T2', ('constr', None, 'cho', [('p', P('int'), 'm'), ('q', P('null'), 'm')], False, []))])),
     ('seq-run-across-marker',
      ('E', [('T0', ('constr', None, 'seq', [('a', P('int'), 'o')], True, [('b', P('int'), 'm')]))])),
 ]
@@ -802,7 +840,7 @@ def run(ctx, only_modules=None):
                        'reference); distinct = distinct module texts; non-trivial = asn1c reached the semantic checker '
                        '(no syntax error) and the oracle decided the expected verdict')
     rng = ctx.rng
-    nbase = 110 if ctx.quick else 1500
+    nbase = int(os.environ.get('VERIF_C11_NBASE', 110 if ctx.quick else 1500))
     per = 14 if ctx.quick else 60
     cases = []     # dict(kind, desc, M)
     if only_modules is not None:
@@ -941,6 +979,8 @@ def run(ctx, only_modules=None):
             f = ctx.match_finding(lambda f: f.get('witness', {}).get('id', '').startswith('enum-numbering'))
         elif c['cyclic']:
             f = ctx.match_finding(lambda f: f.get('witness', {}).get('id') == 'recursive-untagged-choice-crash')
+        elif 'accepted' in why and is_markcut_case(c['M']):
+            f = ctx.match_finding(lambda f: f.get('witness', {}).get('id') == 'typeref-then-choice-ref-missed')
         if f:
             continue
         ctx.violation('C11 predicate fails on asn1c: %s [%s %s]' % (why, c['kind'], c['desc']),
@@ -984,6 +1024,26 @@ def run(ctx, only_modules=None):
     ]
     ctx.log('K: %s' % kstat)
     ctx.log('P: cases=%d failures=%d grey=%d' % (pstat['cases'], pstat['failures'], pstat['grey']))
+
+
+def is_markcut_case(M):
+    """matcher of the TM_RECURSION finding: some SEQUENCE/SET/CHOICE (not automatically tagged) has an
+    untagged type reference member whose tag is determinate, followed by an untagged type reference
+    that leads to an untagged CHOICE, and their tag sets intersect"""
+    orc = Oracle(M)
+    for _, _, node in all_nodes(M):
+        if node[0] != 'constr':
+            continue
+        if M[0] == 'A' and all(c[1][1] is None for c in node[3]):
+            continue
+        cs = node[3] + node[5]
+        for i in range(len(cs)):
+            for j in range(i + 1, len(cs)):
+                a, b = cs[i][1], cs[j][1]
+                if a[0] == 'ref' and a[1] is None and b[0] == 'ref' and b[1] is None and \
+                        not orc.untagged_choice(a) and orc.untagged_choice(b) and orc.tags(a, ()) & orc.tags(b, ()):
+                    return True
+    return False
 
 
 def is_enum_numbering_case(M):
